@@ -24,6 +24,11 @@ def jobs(tier):
     for burst in ((6,) if q else (2, 4, 6, 10)):
         for target in (64, 128, 256, 512, 1024, 4096):
             js.append({"scenario": "c20.shrink", "cfg": {"burst": burst, "target": target, "tbuf": 1}, "bound": 2, "deadline": 120})
+            if target in (64, 256, 1024):
+                # backend buffer capacities that are not powers of two (rounded up by the ring) and three statements buffered
+                # together after the shrink
+                for tbuf in ((3,) if q else (3, 5, 6)):
+                    js.append({"scenario": "c20.shrink", "cfg": {"burst": burst, "target": target, "tbuf": tbuf, "after": 3}, "bound": 1 if q else 2, "deadline": 120})
             if target in (64, 256):
                 js.append({"scenario": "c20.shrink", "cfg": {"burst": burst, "target": target, "tbuf": 1, "park": 1}, "bound": 1 if q else 2, "deadline": 120})
     return js
@@ -33,7 +38,7 @@ def run(ctx):
     ctx.rule = ("(a) all schedules up to the preemption bound of 1-3 short-lived threads (log, exit) + an optional live thread "
                 "against the preemptible backend; (b) exhaustive sweep over the number N of threads that start, log once and "
                 "exit between two backend idle periods (two cycles each); (c) grow-by-burst then shrink(target) for every "
-                "power-of-two target, interleaved with logging and backend steps; after the drain the number of retained "
+                "power-of-two target, interleaved with logging and backend steps, backend buffer initial capacities 1 and non-powers of two; after the drain the number of retained "
                 "thread contexts must equal the number of live threads that logged; distinct = distinct observable outcomes")
     ctx.set_deadline(170 if ctx.tier == "quick" else 1800)
     exe = opxlib.build("sc_c20", SRC)
